@@ -32,6 +32,15 @@ PREFIX = {1e-24: "y", 1e-21: "z", 1e-18: "a", 1e-15: "f", 1e-12: "p", 1e-9: "n",
 def plot_case(draw):
     g = draw(gen.geom(ndim=2, nmin=1, nmax=6, exps=(-9, 3), big_offsets=False, tol=False, units=False))
     g["units"] = [draw(st.sampled_from(["m", "m", "s", "T"])) for _ in range(2)] if draw(st.booleans()) else None
+    mixg = ((draw(st.integers(0, 2**32)) + 0x20C) * 0x9E3779B97F4A7C15) % 2**64 >> 23
+    if mixg % 5 == 0:
+        # integer-typed corners of a few hundred to a few thousand (metres shown in km, or any explicit multiplier): the
+        # corners divided by the multiplier are not integers
+        lo = [((mixg >> (8 + 12 * d)) % 41 - 20) * 50 for d in range(2)]
+        ed = [(8 + (mixg >> (32 + 8 * d)) % 23) * 125 for d in range(2)]
+        g["p1"], g["p2"], g["exp"] = [int(v) for v in lo], [int(l + e) for l, e in zip(lo, ed)], 0
+        g.pop("by_cell", None)
+        g.pop("stretched", None)
     k = draw(st.integers(1, 3))
     kind = draw(st.sampled_from(["scalar", "contour", "lightness", "mpl"] if k == 1 else ["vector", "vector", "mpl", "lightness", "lightness"]))
     # auxiliary field resolution: the same, transposed, another factorisation of the same number of cells (a shortcut
@@ -40,7 +49,8 @@ def plot_case(draw):
     return {"g": g, "k": k, "kind": kind, "vdims": draw(gen.vdims_strategy(k)), "perm": list(draw(st.permutations(range(3)))),
             "use_vdims_arg": draw(st.booleans()), "seed": draw(st.integers(0, 2**31)), "mask": draw(gen.mask_spec(2)),
             "override": ((draw(st.integers(0, 2**32)) + 0xC20) * 0x9E3779B97F4A7C15) % 2**64 >> 20,
-            "mult": draw(st.sampled_from([None, None, 1e-9, 1e-6, 1e-3, 1, 1e3])),
+            "mult": draw(st.sampled_from([None, None, 1e-9, 1e-6, 1e-3, 1, 1e3])) if mixg % 5 else
+                    [None, 1e3, 1e3, 1e6][(mixg >> 50) % 4],
             # an auxiliary field that this kind of plot uses
             "aux": draw(st.sampled_from({"scalar": ["none", "filter", "filter"], "contour": ["none", "filter", "filter"],
                                          "lightness": ["none", "filter", "lightness", "lightness"],
@@ -129,8 +139,9 @@ def check_extent(ext, lat, mult, what):
         raise Violation(f"{what}-extent", f"{list(ext)} vs {want}")
 
 
-def check_image(im, lat, values, drawn, mult, what):
-    """values (n0, n1) expected numbers; drawn (n0, n1) bool"""
+def check_image(im, lat, values, drawn, mult, what, undecided=None):
+    """values (n0, n1) expected numbers; drawn (n0, n1) bool; undecided: cells whose centre lies on a face of the filter
+    field's mesh (either neighbour may decide) - their visibility is not compared"""
     n0, n1 = lat.n
     require(im.origin == "lower", f"{what}-origin", f"{im.origin}")
     check_extent(im.get_extent(), lat, mult, what)
@@ -146,6 +157,8 @@ def check_image(im, lat, values, drawn, mult, what):
             row = int(np.floor((y - ext[2]) / (ext[3] - ext[2]) * n1))
             pix = a[row, col]
             hidden = bool(np.ma.getmaskarray(a)[row, col]) if a.ndim == 2 else None
+            if undecided is not None and undecided[i, j]:
+                continue
             if hidden != (not drawn[i, j]):
                 raise Violation(f"{what}-hidden-cells", f"cell {(i, j)}: drawn={not hidden}, expected drawn={bool(drawn[i, j])}")
             if drawn[i, j] and values is not None and not np.isclose(float(pix), values[i, j], rtol=1e-12, atol=0):
@@ -307,15 +320,20 @@ def check_plot(case):
             else:
                 third = [c for c in range(3) if c not in (comp_axis.get(0), comp_axis.get(1))][0]
                 vals = arr[..., third]
+            check_image(images[0], lat, vals, drawn, mult, "image", undecided=ambiguous)
             if ambiguous.any():
-                raise Reject()
-            check_image(images[0], lat, vals, drawn, mult, "image")
+                tag("filter-ties-skipped")
         if kind == "lightness":
             require(len(images) >= 1, "image-count")
             im = images[0]
             check_extent(im.get_extent(), lat, mult, "lightness")
             rgba = np.asarray(im.get_array())
             require(rgba.shape == (n[1], n[0], 4), "lightness-shape", f"{rgba.shape}")
+            if ambiguous.any():
+                # cells whose centre lies on a face of the filter mesh are not compared, all others are
+                vis = rgba[..., 3].T > 0
+                if np.any((vis != drawn) & ~ambiguous):
+                    raise Violation("lightness-hidden-cells", f"{int(np.sum((vis != drawn) & ~ambiguous))} cells")
             if not ambiguous.any():
                 vis = rgba[..., 3].T > 0
                 if not np.array_equal(vis, drawn):
@@ -566,6 +584,12 @@ def check_refuse(case):
 
 SUBS = [
     Sub("plot", check_plot, plot_case(), nontrivial=nontrivial, quick=220, thorough=2500),
+    # the filter field on another resolution, by construction (a third of the general cases have a filter, a third of
+    # those on another resolution, and cells on filter faces are not compared)
+    Sub("filter-resolution", check_plot,
+        plot_case().map(lambda c: dict(c, k=1, kind=["scalar", "lightness", "scalar"][c["seed"] % 3], aux="filter", vdims=None,
+                                       aux_n=["swapped", "same-count", "other", "other"][c["aux_seed"] % 4])),
+        nontrivial=nontrivial, quick=150, thorough=1500),
     Sub("sequence", check_sequence, sequence_case(), quick=80, thorough=800),
     Sub("refuse", check_refuse, enum=enum_refuse),
 ]
